@@ -21,9 +21,9 @@ enum TSt {
 struct Inner {
     st: Vec<TSt>,
     current: Option<usize>,
-    /// number of completed real steps (a thread reached a non-waiting yield point or finished)
-    progress: u64,
-    /// progress value at which a waiting thread was last given a retry without progress
+    /// per thread: number of completed real steps (it reached a non-waiting yield point or finished)
+    progress_by: Vec<u64>,
+    /// progress of the OTHER threads at which a waiting thread was last given a retry without progress
     forced: Vec<Option<u64>>,
     prefix: Vec<(usize, usize)>,
     last: Option<usize>,
@@ -91,6 +91,12 @@ impl Exec {
     }
 }
 
+const STEP_LIMIT: u64 = 5000;
+
+fn others(g: &Inner, t: usize) -> u64 {
+    g.progress_by.iter().sum::<u64>() - g.progress_by[t]
+}
+
 /// The scheduling decision, taken by whichever thread just gave up control. None: the execution is over
 /// (all done, deadlock, or a machinery error).
 fn decide(g: &mut Inner) -> Option<usize> {
@@ -113,25 +119,25 @@ fn decide(g: &mut Inner) -> Option<usize> {
         }
         match g.st[t] {
             TSt::Ready(_) => enabled.push(t),
-            TSt::Waiting(_, p) if g.progress > p => enabled.push(t),
+            // a waiter is released by progress of OTHER threads only (its own steps inside a retry loop do not count)
+            TSt::Waiting(_, p) if others(g, t) > p => enabled.push(t),
             _ => {}
         }
     }
     if enabled.is_empty() {
         // what a waiter waits for may already have happened before it started waiting: one retry without
         // progress; a waiter that comes back to the same wait with still no progress is stuck
-        let prog = g.progress;
         for t in 0..n {
-            if matches!(g.st[t], TSt::Waiting(..)) && g.forced[t] != Some(prog) {
+            if matches!(g.st[t], TSt::Waiting(..)) && g.forced[t] != Some(others(g, t)) {
                 enabled.push(t);
             }
         }
-        for t in &enabled {
-            g.forced[*t] = Some(prog);
+        for t in enabled.clone() {
+            g.forced[t] = Some(others(g, t));
         }
     }
     if enabled.is_empty() {
-        g.ex.deadlock = Some(format!("no enabled thread: states {:?}", g.st));
+        g.ex.deadlock = Some(format!("no enabled thread (a waiter that nothing can release any more): states {:?}", g.st));
         g.over = true;
         return None;
     }
@@ -153,9 +159,11 @@ fn decide(g: &mut Inner) -> Option<usize> {
         g.ex.points.push(Point { enabled: enabled.clone(), chosen, last_ready, at });
     }
     g.ex.steps += 1;
-    if g.ex.steps > 100_000 {
-        g.err = Some("more than 100000 steps in one execution".into());
-        g.ex.hung = true;
+    if g.ex.steps > STEP_LIMIT {
+        // No execution of the bounded programs needs more than a few dozen steps. A waiter is only ever released by
+        // real steps of other threads, and a thread's real steps are finite unless it is itself going round a retry
+        // loop - so an execution this long is a set of threads that keep each other spinning: a livelock.
+        g.ex.deadlock = Some(format!("livelock: more than {} scheduling steps, threads keep re-entering their retry loops: states {:?}", STEP_LIMIT, g.st));
         g.over = true;
         return None;
     }
@@ -201,9 +209,9 @@ impl Sched {
         let g = {
             let mut g = self.m.lock().unwrap();
             if !waiting {
-                g.progress += 1;
+                g.progress_by[me] += 1;
             }
-            let p = g.progress;
+            let p = others(&g, me);
             g.st[me] = if waiting { TSt::Waiting(id, p) } else { TSt::Ready(id) };
             g
         };
@@ -215,7 +223,7 @@ impl Sched {
     fn finish(&self, me: usize) {
         let mut g = self.m.lock().unwrap();
         g.st[me] = TSt::Done;
-        g.progress += 1;
+        g.progress_by[me] += 1;
         self.hand_over(g, None);
     }
 }
@@ -226,7 +234,7 @@ pub fn run_once(bodies: Vec<Box<dyn FnOnce() + Send>>, prefix: &[(usize, usize)]
     install_hook();
     let n = bodies.len();
     let sched = Arc::new(Sched {
-        m: Mutex::new(Inner { st: vec![TSt::Ready(0); n], current: None, progress: 0, forced: vec![None; n], prefix: prefix.to_vec(), last: None, ex: Exec::default(), err: None, over: false }),
+        m: Mutex::new(Inner { st: vec![TSt::Ready(0); n], current: None, progress_by: vec![0; n], forced: vec![None; n], prefix: prefix.to_vec(), last: None, ex: Exec::default(), err: None, over: false }),
         cvs: (0..=n).map(|_| Condvar::new()).collect(),
     });
     let workers = POOL.with(|p| {
